@@ -6,21 +6,29 @@ import ExecModel.Proofs.SysCeil
 
   `Config.construct` / `Config.submitCheck` model the constructor and submit decision table,
   `Config.Runnable` is the SPEC of "the executor can run the call", `Config.regionOf` lists the
-  accepted-but-not-runnable cells that remain (known findings D20, D21, D23 — the latter for the
-  flux spawner only).  The former regions D10 (slots above `max_cores`) and D22 (file back end
-  without pysqa) are closed by the fixes 472d455 and 4a90a71: `accepted_fits_limit`,
-  `rejects_slots_above_limit`, `file_backend_needs_pysqa`.  `accepted_runs_sandbox` is the
-  corollary for the environment of this sandbox (no flux, mpi available): the only remaining
-  region is D20.
+  accepted-but-not-runnable cells that remain (known findings D21, D23 — the latter for the
+  flux spawner only; the constructor `d20KeysNotAccepted` is still there but no accepted
+  configuration reaches it).  The former regions D10 (slots above `max_cores`) and D22 (file back
+  end without pysqa) are closed by the fixes 472d455 and 4a90a71: `accepted_fits_limit`,
+  `rejects_slots_above_limit`, `file_backend_needs_pysqa`.  The former region D20 (a resource key
+  the spawner class rejects) is closed by fix D20FIX (`check_resource_dict_keys` in the executor
+  constructors and in `submit`): `accepted_keys_ok`, `rejects_unknown_key_exec`,
+  `rejects_unknown_key_percall`.  For the environment of this sandbox (no flux, mpi available)
+  nothing remains: `no_region_sandbox`, `accepted_always_runs_sandbox` (every accepted
+  configuration is `Runnable`); `accepted_runs_sandbox` is the older form with a key hypothesis,
+  kept as a corollary.
   `accepted_config_runs_call` composes the table with the progress theorems of the transition
   system `Sys` (C02/C05): for a runnable plan the trivial call is executed and shutdown returns.
+  `accepted_config_runs_any_program` is the stronger composition: the same executor configuration
+  with ANY program and user script (`runnable_wfLim`: `Runnable` gives the limit-level hypothesis
+  `Sys.WfLim` of the `_lim` progress theorems, which ask nothing of the program's calls).
 
   Fix 55646a2 (`check_cores_and_threads`): non-positive cores / threads are refused by the
   constructor and by `submit` — `rejects_nonpositive_cores`, `rejects_nonpositive_threads_percall`,
   `accepted_positive`, `zero_cores_rejected`.  In plot mode nothing is executed, but a block
   allocation starts its worker threads with the executor-level dictionary: `accepted_runs` covers
-  that case, and `keysAccepted_exec` shows the per-call key condition implies the executor-level
-  one, so `accepted_runs_sandbox` holds unchanged.
+  that case (`keysAccepted_exec`: the per-call key condition implies the executor-level one;
+  `accepted_keys_ok` states the condition for the dictionary the workers are started with).
 
   Two statements were corrected against the model (cell: block allocation with `max_workers` given
   and `max_cores` below the cores per worker — accepted, and it runs): `rejects_cores_above_limit`
@@ -55,6 +63,12 @@ structure CeInv (env : Env) (o : Opts) (p : Plan) : Prop where
   coresPos : 1 ≤ o.rd.cores.getD 1
   threadsPos : 1 ≤ o.rd.threads.getD 1
   spawner : p.spawner = .flux → env.flux = true
+  /-- `check_resource_dict_keys` in the executor constructors (fix D20FIX) -/
+  known : p.rd.unknown = false
+  /-- the back-end specific deletions do not touch an unknown key -/
+  rdUnknown : p.rd.unknown = o.rd.unknown
+  /-- the local back end deletes `gpus_per_core` and the extra keyword before the spawner sees them -/
+  mpiKeys : p.spawner = .mpiexec → p.rd.gpus = none ∧ p.rd.extra = .absent
   kind : (o.block = true ∧ ∃ n b, validateWorkers env o.maxCores o.maxWorkers (o.rd.cores.getD 1) b = .ok n ∧
             p.kind = .block n) ∨
          (o.block = false ∧ p.kind = .step ∧
@@ -69,23 +83,27 @@ private theorem pos_of_guard {a b : Nat} (h : ¬ (decide (a < 1) || decide (b < 
 private theorem inv_block {env : Env} {o : Opts} {n : Nat} {sp : Spawner} {rd : RD} {b : Bool} (hb : o.block = true)
     (hpos : 1 ≤ o.rd.cores.getD 1 ∧ 1 ≤ o.rd.threads.getD 1)
     (hv : validateWorkers env o.maxCores o.maxWorkers (o.rd.cores.getD 1) b = .ok n)
-    (hsp : sp = .flux → env.flux = true) :
+    (hsp : sp = .flux → env.flux = true)
+    (hu : ¬ rd.unknown = true) (hru : rd.unknown = o.rd.unknown)
+    (hmk : sp = .mpiexec → rd.gpus = none ∧ rd.extra = .absent) :
     CeInv env o
       { kind := .block n, resolver := false, plot := false, spawner := sp, maxCores := o.maxCores,
         maxWorkers := o.maxWorkers, rd := rd, cores := o.rd.cores.getD 1, fileBackendParam := false } :=
-  ⟨rfl, rfl, rfl, rfl, rfl, hpos.1, hpos.2, hsp, .inl ⟨hb, n, b, hv, rfl⟩⟩
+  ⟨rfl, rfl, rfl, rfl, rfl, hpos.1, hpos.2, hsp, Bool.eq_false_iff.2 hu, hru, hmk, .inl ⟨hb, n, b, hv, rfl⟩⟩
 
 private theorem inv_step {env : Env} {o : Opts} {sp : Spawner} {rd : RD}
     (hb : ¬ o.block = true)
     (hpos : 1 ≤ o.rd.cores.getD 1 ∧ 1 ≤ o.rd.threads.getD 1)
     (c4 : ¬ (!o.block && (match o.maxCores with | some mc => decide (mc < o.rd.cores.getD 1) | none => false)) = true)
     (c5 : ¬ (!o.block && o.maxCores.isNone && (match o.maxWorkers with | some mw => decide (mw < 1) | none => false)) = true)
-    (hsp : sp = .flux → env.flux = true) :
+    (hsp : sp = .flux → env.flux = true)
+    (hu : ¬ rd.unknown = true) (hru : rd.unknown = o.rd.unknown)
+    (hmk : sp = .mpiexec → rd.gpus = none ∧ rd.extra = .absent) :
     CeInv env o
       { kind := .step, resolver := false, plot := false, spawner := sp, maxCores := o.maxCores,
         maxWorkers := o.maxWorkers, rd := rd, cores := o.rd.cores.getD 1, fileBackendParam := false } := by
   have hb' : o.block = false := by simpa using hb
-  refine ⟨rfl, rfl, rfl, rfl, rfl, hpos.1, hpos.2, hsp, .inr ⟨hb', rfl, ?_, ?_⟩⟩
+  refine ⟨rfl, rfl, rfl, rfl, rfl, hpos.1, hpos.2, hsp, Bool.eq_false_iff.2 hu, hru, hmk, .inr ⟨hb', rfl, ?_, ?_⟩⟩
   · intro mc hmc
     simp [hmc, hb'] at c4
     exact c4
@@ -112,16 +130,24 @@ theorem createExecutor_inv {env : Env} {o : Opts} {p : Plan} (h : createExecutor
     · rw [if_pos hb] at h
       split at h
       · cases h
-      · rename_i n hv; cases h; exact inv_block hb hpos hv (fun hx => nomatch hx)
-    · rw [if_neg hb] at h; cases h; exact inv_step hb hpos c4 c5 (fun hx => nomatch hx)
+      · rename_i n hv
+        replace h := ite_ok h; obtain ⟨hu, h⟩ := h
+        cases h; exact inv_block hb hpos hv (fun hx => nomatch hx) hu rfl (fun _ => ⟨rfl, rfl⟩)
+    · rw [if_neg hb] at h
+      replace h := ite_ok h; obtain ⟨hu, h⟩ := h
+      cases h; exact inv_step hb hpos c4 c5 (fun hx => nomatch hx) hu rfl (fun _ => ⟨rfl, rfl⟩)
   case slurmAlloc =>
     replace h := ite_ok h; obtain ⟨-, h⟩ := h
     by_cases hb : o.block = true
     · rw [if_pos hb] at h
       split at h
       · cases h
-      · rename_i n hv; cases h; exact inv_block hb hpos hv (fun hx => nomatch hx)
-    · rw [if_neg hb] at h; cases h; exact inv_step hb hpos c4 c5 (fun hx => nomatch hx)
+      · rename_i n hv
+        replace h := ite_ok h; obtain ⟨hu, h⟩ := h
+        cases h; exact inv_block hb hpos hv (fun hx => nomatch hx) hu rfl (fun hx => nomatch hx)
+    · rw [if_neg hb] at h
+      replace h := ite_ok h; obtain ⟨hu, h⟩ := h
+      cases h; exact inv_step hb hpos c4 c5 (fun hx => nomatch hx) hu rfl (fun hx => nomatch hx)
   case fluxAlloc =>
     replace h := ite_ok h; obtain ⟨-, h⟩ := h
     replace h := ite_ok h; obtain ⟨-, h⟩ := h
@@ -131,11 +157,15 @@ theorem createExecutor_inv {env : Env} {o : Opts} {p : Plan} (h : createExecutor
       · cases h
       · rename_i n hv
         split at h
-        · rename_i hfl; cases h; exact inv_block hb hpos hv (fun _ => hfl)
+        · rename_i hfl
+          replace h := ite_ok h; obtain ⟨hu, h⟩ := h
+          cases h; exact inv_block hb hpos hv (fun _ => hfl) hu rfl (fun hx => nomatch hx)
         · cases h
     · rw [if_neg hb] at h
       split at h
-      · rename_i hfl; cases h; exact inv_step hb hpos c4 c5 (fun _ => hfl)
+      · rename_i hfl
+        replace h := ite_ok h; obtain ⟨hu, h⟩ := h
+        cases h; exact inv_step hb hpos c4 c5 (fun _ => hfl) hu rfl (fun hx => nomatch hx)
       · cases h
   all_goals cases h
 
@@ -162,7 +192,7 @@ theorem createExecutor_workers {env : Env} {o : Opts} {p : Plan} (h : createExec
 private theorem construct_inv {env : Env} {o : Opts} {p : Plan} (hc : construct env o = .ok p) :
     (p.kind = .file ∧ o.backend.isSubmission = true ∧ env.pysqa = true ∧ p.spawner = .mpiexec) ∨
     ∃ p', createExecutor env o = .ok p' ∧ p.kind = p'.kind ∧ p.maxCores = p'.maxCores ∧
-      p.maxWorkers = p'.maxWorkers ∧ p.cores = p'.cores ∧ p.spawner = p'.spawner := by
+      p.maxWorkers = p'.maxWorkers ∧ p.cores = p'.cores ∧ p.spawner = p'.spawner ∧ p.rd = p'.rd := by
   unfold construct at hc
   by_cases h1 : (o.backend.isSubmission && !o.plot) = true
   · rw [if_pos h1] at hc
@@ -187,12 +217,12 @@ private theorem construct_inv {env : Env} {o : Opts} {p : Plan} (hc : construct 
       · cases hc
       · rename_i p' hce
         cases hc
-        exact ⟨p', hce, rfl, rfl, rfl, rfl, rfl⟩
+        exact ⟨p', hce, rfl, rfl, rfl, rfl, rfl, rfl⟩
     · rw [if_neg h2] at hc
       replace hc := ite_ok hc; obtain ⟨-, hc⟩ := hc
       replace hc := ite_ok hc; obtain ⟨-, hc⟩ := hc
       replace hc := ite_ok hc; obtain ⟨-, hc⟩ := hc
-      exact ⟨p, hc, rfl, rfl, rfl, rfl, rfl⟩
+      exact ⟨p, hc, rfl, rfl, rfl, rfl, rfl, rfl⟩
 
 private theorem region_none_core {a u m : Bool}
     (h : (if (!a) = true then some Region.d20KeysNotAccepted
@@ -207,7 +237,11 @@ private theorem region_none_core {a u m : Bool}
 private theorem submitCheck_step {p : Plan} {pc : RD} {fnrd : Bool} (hk : p.kind = .step)
     (hpl : (p.resolver && p.plot) = false) :
     submitCheck p pc fnrd =
-      if ((decide ((effective p pc).cores.getD 1 < 1) || decide (pc.threads.getD 1 < 1)) ||
+      if (pc.unknown || (match p.spawner with
+            | .mpiexec => pc.gpus.isSome || pc.extra != .absent
+            | _ => false)) = true
+      then .error .valueError
+      else if ((decide ((effective p pc).cores.getD 1 < 1) || decide (pc.threads.getD 1 < 1)) ||
           (match p.maxCores with | some mc => decide (mc < slots p pc) | none => false)) = true
       then .error .valueError
       else if fnrd = true then .error .valueError else .ok () := by
@@ -221,6 +255,7 @@ theorem accepted_fits_limit (p : Plan) (pc : RD) (fnrd : Bool) (mc : Nat) (hk : 
     (hpl : (p.resolver && p.plot) = false) (hm : p.maxCores = some mc)
     (hs : submitCheck p pc fnrd = .ok ()) : slots p pc ≤ mc := by
   rw [submitCheck_step hk hpl, hm] at hs
+  obtain ⟨-, hs⟩ := ite_ok hs
   obtain ⟨hbig, -⟩ := ite_ok hs
   simp only [Bool.or_eq_true, decide_eq_true_eq, not_or] at hbig
   omega
@@ -231,7 +266,7 @@ theorem rejects_slots_above_limit (p : Plan) (pc : RD) (fnrd : Bool) (mc : Nat) 
     (hpl : (p.resolver && p.plot) = false) (hm : p.maxCores = some mc) (hlt : mc < slots p pc) :
     submitCheck p pc fnrd = .error .valueError := by
   rw [submitCheck_step hk hpl, hm]
-  simp only [hlt, decide_true, Bool.or_true, if_true]
+  simp only [hlt, decide_true, Bool.or_true, if_true, ite_self]
 
 /-- **Accepted configurations run the call — outside the listed regions.**  If the constructor
     returns an executor and `submit` accepts the call, then either the configuration lies in one of
@@ -298,7 +333,7 @@ theorem accepted_runs (env : Env) (o : Opts) (p : Plan) (pc : RD) (fnrd : Bool)
 private theorem construct_spawner {env : Env} {o : Opts} {p : Plan} (hc : construct env o = .ok p)
     (hf : env.flux = false) : p.spawner ≠ .flux := by
   intro hsp
-  rcases construct_inv hc with ⟨-, -, -, hm⟩ | ⟨p', hce, -, -, -, -, hsp'⟩
+  rcases construct_inv hc with ⟨-, -, -, hm⟩ | ⟨p', hce, -, -, -, -, hsp', -⟩
   · rw [hm] at hsp; cases hsp
   · have := (createExecutor_inv hce).spawner (hsp' ▸ hsp)
     rw [hf] at this; cases this
@@ -316,13 +351,78 @@ theorem keysAccepted_exec (p : Plan) (pc : RD) (h : keysAccepted p pc = true) : 
     | (cases hg : p.rd.gpus <;> cases hpg : pc.gpus <;> cases he : p.rd.extra <;> cases hpe : pc.extra <;>
         simp_all)
 
-/-- **In this sandbox (no flux, mpi available) the only remaining region is D20**: an accepted
-    configuration whose resource keys the spawner class accepts runs the call. -/
-theorem accepted_runs_sandbox (env : Env) (o : Opts) (p : Plan) (pc : RD) (fnrd : Bool)
+/-! ### fix D20FIX: `check_resource_dict_keys` in the constructors and in `submit` -/
+
+/-- what the constructor guarantees of the executor-level dictionary of an interactive executor: no
+    unknown key, and with the `mpiexec` spawner neither `gpus_per_core` nor the extra keyword -/
+private theorem construct_keys {env : Env} {o : Opts} {p : Plan} (hc : construct env o = .ok p)
+    (hk : p.kind ≠ .file) :
+    p.rd.unknown = false ∧ (p.spawner = .mpiexec → p.rd.gpus = none ∧ p.rd.extra = .absent) := by
+  rcases construct_inv hc with ⟨hf, -⟩ | ⟨p', hce, -, -, -, -, hsp, hrd⟩
+  · exact absurd hf hk
+  · have hi := createExecutor_inv hce
+    rw [hsp, hrd]
+    exact ⟨hi.known, hi.mpiKeys⟩
+
+/-- the key condition from its four ingredients -/
+private theorem keysAccepted_of {p : Plan} {pc : RD} (hu : p.rd.unknown = false)
+    (hmk : p.spawner = .mpiexec → p.rd.gpus = none ∧ p.rd.extra = .absent)
+    (hpu : pc.unknown = false)
+    (hpk : p.spawner = .mpiexec → pc.gpus = none ∧ pc.extra = .absent) : keysAccepted p pc = true := by
+  unfold keysAccepted effective
+  cases hsp : p.spawner with
+  | mpiexec =>
+    obtain ⟨h1, h2⟩ := hmk hsp
+    obtain ⟨h3, h4⟩ := hpk hsp
+    simp [hu, hpu, h1, h2, h3, h4]
+  | srun => simp [hu, hpu]
+  | flux => simp [hu, hpu]
+
+/-- `submit` on a block allocation takes an empty per-call dictionary only -/
+private theorem submitCheck_block_empty {p : Plan} {pc : RD} {fnrd : Bool} {n : Nat} (hk : p.kind = .block n)
+    (hpl : (p.resolver && p.plot) = false) (hs : submitCheck p pc fnrd = .ok ()) : pc.isEmpty = true := by
+  unfold submitCheck at hs
+  simp only [hpl, hk, Bool.false_eq_true, if_false] at hs
+  obtain ⟨he, -⟩ := ite_ok hs
+  simpa using he
+
+/-- **Every accepted interactive configuration passes keys the spawner class takes** (fix D20FIX;
+    closes the former region D20): the dictionary the worker is started with — the executor-level
+    one in plot mode, the merged one otherwise — has no unknown key and, with the `mpiexec`
+    spawner, neither `gpus_per_core` nor the extra keyword. -/
+theorem accepted_keys_ok (env : Env) (o : Opts) (p : Plan) (pc : RD) (fnrd : Bool)
+    (hc : construct env o = .ok p) (hs : submitCheck p pc fnrd = .ok ()) (hk : p.kind ≠ .file) :
+    (if p.resolver && p.plot then keysAccepted p {} else keysAccepted p pc) = true := by
+  obtain ⟨hu, hmk⟩ := construct_keys hc hk
+  by_cases hplot : (p.resolver && p.plot) = true
+  · rw [if_pos hplot]
+    exact keysAccepted_of hu hmk rfl (fun _ => ⟨rfl, rfl⟩)
+  · rw [if_neg hplot]
+    have hplot' : (p.resolver && p.plot) = false := by simpa using hplot
+    cases hkind : p.kind with
+    | file => exact absurd hkind hk
+    | block n =>
+      have he := submitCheck_block_empty hkind hplot' hs
+      simp only [RD.isEmpty, Bool.and_eq_true, Option.isNone_iff_eq_none, beq_iff_eq, Bool.not_eq_true'] at he
+      obtain ⟨⟨⟨⟨⟨⟨-, -⟩, hg⟩, -⟩, -⟩, hx⟩, hpu⟩ := he
+      exact keysAccepted_of hu hmk hpu (fun _ => ⟨hg, hx⟩)
+    | step =>
+      rw [submitCheck_step hkind hplot'] at hs
+      obtain ⟨hbk, -⟩ := ite_ok hs
+      simp only [Bool.or_eq_true, not_or] at hbk
+      obtain ⟨hpu, hm⟩ := hbk
+      refine keysAccepted_of hu hmk (by simpa using hpu) ?_
+      intro hsp
+      rw [hsp] at hm
+      simpa using hm
+
+/-- **In this sandbox (no flux, mpi available) no accepted configuration lies in a region**: the
+    keys are accepted (`accepted_keys_ok`), the subprocess spawners create the working directory,
+    and MPI is there. -/
+theorem no_region_sandbox (env : Env) (o : Opts) (p : Plan) (pc : RD) (fnrd : Bool)
     (hf : env.flux = false) (hm : env.mpi = true)
-    (hc : construct env o = .ok p) (hs : submitCheck p pc fnrd = .ok ()) (hk : keysAccepted p pc = true) :
-    Runnable env p pc = true := by
-  apply accepted_runs env o p pc fnrd hc hs
+    (hc : construct env o = .ok p) (hs : submitCheck p pc fnrd = .ok ()) :
+    regionOf env p pc = none := by
   have hsp := construct_spawner hc hf
   have hcwd : ∀ pc', cwdUsable p pc' = true := by
     intro pc'
@@ -330,10 +430,63 @@ theorem accepted_runs_sandbox (env : Env) (o : Opts) (p : Plan) (pc : RD) (fnrd 
     rw [Bool.or_eq_true]
     right
     simpa using hsp
-  have hk0 := keysAccepted_exec p pc hk
   unfold regionOf
-  simp only [hk, hk0, hcwd, hm, Bool.or_true, Bool.not_true, Bool.false_eq_true, if_false]
-  split <;> (try split) <;> rfl
+  cases hkind : p.kind with
+  | file =>
+    simp only
+    split <;> rfl
+  | block n =>
+    have hk := accepted_keys_ok env o p pc fnrd hc hs (by rw [hkind]; exact fun hx => nomatch hx)
+    by_cases hplot : (p.resolver && p.plot) = true
+    · rw [if_pos hplot] at hk
+      simp only [hplot, hk, hcwd, hm, Bool.or_true, Bool.not_true, Bool.false_eq_true, if_false, if_true]
+    · rw [if_neg hplot] at hk
+      simp only [hplot, hk, hcwd, hm, Bool.or_true, Bool.not_true, Bool.false_eq_true, if_false]
+  | step =>
+    have hk := accepted_keys_ok env o p pc fnrd hc hs (by rw [hkind]; exact fun hx => nomatch hx)
+    by_cases hplot : (p.resolver && p.plot) = true
+    · simp only [hplot, if_true]
+    · rw [if_neg hplot] at hk
+      simp only [hplot, hk, hcwd, hm, Bool.or_true, Bool.not_true, Bool.false_eq_true, if_false]
+
+/-- **In this sandbox (no flux, mpi available) EVERY accepted configuration runs the call**: no
+    hypothesis on the keys any more (fix D20FIX); a file plan has pysqa by `construct`. -/
+theorem accepted_always_runs_sandbox (env : Env) (o : Opts) (p : Plan) (pc : RD) (fnrd : Bool)
+    (hf : env.flux = false) (hm : env.mpi = true)
+    (hc : construct env o = .ok p) (hs : submitCheck p pc fnrd = .ok ()) :
+    Runnable env p pc = true :=
+  accepted_runs env o p pc fnrd hc hs (no_region_sandbox env o p pc fnrd hf hm hc hs)
+
+/-- the former sandbox statement (with the key hypothesis, needed while region D20 was open): now a
+    corollary of `accepted_always_runs_sandbox`, the hypothesis `hk` is not used -/
+theorem accepted_runs_sandbox (env : Env) (o : Opts) (p : Plan) (pc : RD) (fnrd : Bool)
+    (hf : env.flux = false) (hm : env.mpi = true)
+    (hc : construct env o = .ok p) (hs : submitCheck p pc fnrd = .ok ()) (hk : keysAccepted p pc = true) :
+    Runnable env p pc = true := by
+  have _ := hk
+  exact accepted_always_runs_sandbox env o p pc fnrd hf hm hc hs
+
+/-- **An unknown executor-level resource key is refused by the constructor** (fix D20FIX), for
+    every executor built by `create_executor` -/
+theorem rejects_unknown_key_exec (env : Env) (o : Opts) (hb : o.backend.isSubmission = false)
+    (hu : o.rd.unknown = true) : ∃ e, construct env o = .error e := by
+  cases hres : construct env o with
+  | error e => exact ⟨e, rfl⟩
+  | ok p =>
+    exfalso
+    rcases construct_inv hres with ⟨-, hs, -⟩ | ⟨p', hce, -⟩
+    · rw [hb] at hs; cases hs
+    · have hi := createExecutor_inv hce
+      have hrd' := hi.rdUnknown
+      rw [hu, hi.known] at hrd'
+      cases hrd'
+
+/-- **An unknown per-call resource key is refused at `submit`** (fix D20FIX) -/
+theorem rejects_unknown_key_percall (p : Plan) (pc : RD) (fnrd : Bool) (hk : p.kind = .step)
+    (hpl : (p.resolver && p.plot) = false) (hu : pc.unknown = true) :
+    submitCheck p pc fnrd = .error .valueError := by
+  rw [submitCheck_step hk hpl, hu]
+  simp only [Bool.true_or, if_true]
 
 /-- **The file executor is refused without pysqa** (fix 4a90a71): every submission back end
     (without `plot_dependency_graph`) raises in the constructor. -/
@@ -458,7 +611,7 @@ theorem rejects_nonpositive_threads_percall (p : Plan) (pc : RD) (fnrd : Bool) (
     ∃ e, submitCheck p pc fnrd = .error e := by
   refine ⟨.valueError, ?_⟩
   rw [submitCheck_step hk hpl, h0]
-  simp only [Option.getD_some, Nat.lt_add_one, decide_true, Bool.or_true, Bool.true_or, if_true]
+  simp only [Option.getD_some, Nat.lt_add_one, decide_true, Bool.or_true, Bool.true_or, if_true, ite_self]
 
 /-- **An executor built by `create_executor` has at least one core per worker** (fix 55646a2) -/
 theorem accepted_positive (env : Env) (o : Opts) (p : Plan) (hb : o.backend.isSubmission = false)
@@ -572,6 +725,93 @@ theorem accepted_config_runs_call (env : Env) (p : Plan) (pc : RD) (hk : p.kind 
     allAcceptedDone s = true ∧ mainFinished s = true :=
   runs_of_wfRes (toCfg p pc) _ rfl rfl (runnable_wfRes env p pc hk hpl hr) eval cancelErr hnf h hst
 
+/-! ### any program: the hypothesis on the limits only
+
+  `runnable_wfRes` talks about the one call of `toCfg p pc`.  Since `submit` refuses a call whose
+  slots exceed `max_cores` (`Sys.submitTooBig`; fixes 06d6e8a, 472d455), the progress theorems need
+  nothing of the program's calls, only `Sys.WfLim` — a fact about `block`, `maxCores`, `maxWorkers`
+  alone — and `Runnable` gives it.  So the composition holds for ANY program run by the accepted
+  configuration (`accepted_config_runs_any_program`), not only for the trivial one-call program of
+  `accepted_config_runs_call`. -/
+
+open ExecModel.Sys in
+/-- **A runnable plan satisfies the limit-level hypothesis of the progress theorems**: a block
+    allocation has a worker, and `max_workers` as the only limit allows one worker. -/
+theorem runnable_wfLim (env : Env) (p : Plan) (pc : RD) (hk : p.kind ≠ .file) (hpl : (p.resolver && p.plot) = false)
+    (hr : Runnable env p pc = true) : WfLim (toCfg p pc) := by
+  unfold Runnable at hr
+  simp only [hpl, Bool.false_eq_true, if_false] at hr
+  constructor
+  · intro n hn
+    cases hkind : p.kind with
+    | file => exact absurd hkind hk
+    | step => simp [toCfg, hkind] at hn
+    | block m =>
+      simp only [toCfg, hkind, Option.some.injEq] at hn
+      subst hn
+      simp only [hkind, Bool.and_eq_true, decide_eq_true_eq] at hr
+      exact hr.1.1.1
+  · intro hmc mw hmw
+    cases hkind : p.kind with
+    | file => exact absurd hkind hk
+    | block m => simp [toCfg, hkind] at hmw
+    | step =>
+      simp only [toCfg, hkind] at hmc hmw
+      simp only [hkind, Bool.and_eq_true, hmc, hmw, decide_eq_true_eq] at hr
+      exact hr.2
+
+open ExecModel.Sys in
+/-- `WfLim` looks at `block`, `maxCores`, `maxWorkers` only -/
+theorem wfLim_with_calls {cfg : Cfg} (h : WfLim cfg) (calls : List CallSpec) :
+    WfLim { cfg with calls := calls } := h
+
+open ExecModel.Sys in
+/-- **An accepted, runnable configuration runs ANY program**: take the executor configuration of a
+    runnable non-file, non-plot plan (`toCfg p pc`: resolver, block allocation, `max_cores`,
+    `max_workers`, cores per worker) and replace its one trivial call by an arbitrary list `calls`
+    of calls — any per-call cores / threads / resource dictionaries, any dependencies on earlier
+    calls (`WfCfg`) — and let the user run any script (submit / cancel / await / shutdown in any
+    order) with at most `calls.length` submits.  If no function raises, then at the end of every
+    maximal run in which accepted calls depend on accepted calls only (`pg_depOk`; a rejected
+    `submit` returns no future to pass on) every accepted future is done and the user thread has
+    executed its whole script — every shutdown returned.  Calls the executor cannot hold (slots
+    above `max_cores`, a resource dictionary with a block allocation) are rejected by `submit`
+    (label `mSubmitRaise`) and are not "accepted". -/
+theorem accepted_config_runs_any_program (env : Env) (p : Plan) (pc : RD) (hk : p.kind ≠ .file)
+    (hpl : (p.resolver && p.plot) = false) (hr : Runnable env p pc = true)
+    (calls : List CallSpec) (hwf : WfCfg { toCfg p pc with calls := calls })
+    {Val Err : Type} (eval : Nat → List Val → Except Err Val) (cancelErr : Err) (hnf : NoFail eval)
+    (script : List Cmd) (hsc : (script.filter isSubmit).length ≤ calls.length)
+    {s : State Val Err}
+    (h : Reachable { toCfg p pc with calls := calls } eval cancelErr script s)
+    (hD : pg_depOk { toCfg p pc with calls := calls } s = true)
+    (hst : Stuck { toCfg p pc with calls := calls } eval cancelErr s) :
+    allAcceptedDone s = true ∧ mainFinished s = true := by
+  have hl : WfLim { toCfg p pc with calls := calls } :=
+    wfLim_with_calls (runnable_wfLim env p pc hk hpl hr) calls
+  exact ⟨C02.no_lost_futures_lim _ eval cancelErr hnf hwf hl hsc h hD hst,
+         C05.shutdown_returns_lim _ eval cancelErr hnf hwf hl hsc h hD hst⟩
+
+open ExecModel.Sys in
+/-- the same for any `Sys` configuration that agrees with the plan's in the executor-level fields -/
+theorem accepted_config_runs_any_program_cfg (env : Env) (p : Plan) (pc : RD) (hk : p.kind ≠ .file)
+    (hpl : (p.resolver && p.plot) = false) (hr : Runnable env p pc = true)
+    (cfg : Cfg) (hres : cfg.resolver = (toCfg p pc).resolver) (hblk : cfg.block = (toCfg p pc).block)
+    (hmc : cfg.maxCores = (toCfg p pc).maxCores) (hmw : cfg.maxWorkers = (toCfg p pc).maxWorkers)
+    (hec : cfg.execCores = (toCfg p pc).execCores) (hwf : WfCfg cfg)
+    {Val Err : Type} (eval : Nat → List Val → Except Err Val) (cancelErr : Err) (hnf : NoFail eval)
+    (script : List Cmd) (hsc : (script.filter isSubmit).length ≤ cfg.calls.length)
+    {s : State Val Err}
+    (h : Reachable cfg eval cancelErr script s) (hD : pg_depOk cfg s = true)
+    (hst : Stuck cfg eval cancelErr s) :
+    allAcceptedDone s = true ∧ mainFinished s = true := by
+  have e : cfg = { toCfg p pc with calls := cfg.calls } := by
+    cases cfg
+    simp only at hres hblk hmc hmw hec
+    simp only [hres, hblk, hmc, hmw, hec]
+  rw [e] at hwf h hD hst
+  exact accepted_config_runs_any_program env p pc hk hpl hr cfg.calls hwf eval cancelErr hnf script hsc h hD hst
+
 /-! ### carrying the limits over for block plans changes nothing
 
   `toCfgRaw` copies `max_cores` / `max_workers` into the `Sys` configuration also for `.block`
@@ -669,7 +909,7 @@ theorem accepted_config_runs_call_raw (env : Env) (p : Plan) (pc : RD) (hk : p.k
   obtain ⟨h', hst'⟩ := toCfgRaw_same_runs p pc eval cancelErr _ h hst
   exact accepted_config_runs_call env p pc hk hpl hr eval cancelErr hnf h' hst'
 
-/-! Non-vacuity: an accepted runnable configuration, a refused one, and one in a listed region. -/
+/-! Non-vacuity: accepted runnable configurations, refused ones, and the cells of the former region D20 (refused now). -/
 example : ∃ p, construct {} { maxCores := some 2, rd := { cores := some 2 } } = .ok p ∧
     submitCheck p { threads := some 1 } false = .ok () ∧ regionOf {} p { threads := some 1 } = none ∧
     Runnable {} p { threads := some 1 } = true := by
@@ -681,18 +921,19 @@ example : ∃ p, construct {} { rd := { cwd := .missing } } = .ok p ∧ submitCh
     regionOf {} p {} = none ∧ Runnable {} p {} = true := by
   refine ⟨_, rfl, rfl, ?_⟩
   decide
-/-- a listed region: a resource key the spawner class does not know (D20) -/
-example : ∃ p, construct {} {} = .ok p ∧ submitCheck p { unknown := true } false = .ok () ∧
-    regionOf {} p { unknown := true } = some .d20KeysNotAccepted ∧ Runnable {} p { unknown := true } = false := by
-  refine ⟨_, rfl, rfl, ?_⟩
-  decide
+/-- the former region D20 — a resource key the spawner class does not know — is refused at `submit`
+    (fix D20FIX); so are `gpus_per_core` and the extra keyword with the `mpiexec` spawner -/
+example : ∃ p, construct {} {} = .ok p ∧ submitCheck p { unknown := true } false = .error .valueError :=
+  ⟨_, rfl, rfl⟩
+example : ∃ p, construct {} {} = .ok p ∧ submitCheck p { gpus := some 1 } false = .error .valueError :=
+  ⟨_, rfl, rfl⟩
+example : ∃ p, construct {} {} = .ok p ∧ submitCheck p { extra := .empty } false = .error .valueError :=
+  ⟨_, rfl, rfl⟩
 /-- plot mode with a block allocation: nothing is executed, but the worker threads are started with
-    the executor-level dictionary all the same — an unknown executor-level key lies in D20 -/
-example : ∃ p, construct {} { block := true, plot := true, rd := { unknown := true } } = .ok p ∧
-    submitCheck p {} false = .ok () ∧
-    regionOf {} p {} = some .d20KeysNotAccepted ∧ Runnable {} p {} = false := by
-  refine ⟨_, rfl, rfl, ?_⟩
-  decide
+    the executor-level dictionary all the same — an unknown executor-level key (formerly in D20) is
+    refused by the constructor (fix D20FIX) -/
+example : construct {} { block := true, plot := true, rd := { unknown := true } } = .error .valueError := rfl
+example : construct {} { rd := { unknown := true } } = .error .valueError := rfl
 /-- non-positive cores / threads are refused (fix 55646a2) -/
 example : construct {} { rd := { threads := some 0 } } = .error .valueError := rfl
 example : ∃ p, construct {} {} = .ok p ∧ submitCheck p { cores := some 0 } false = .error .valueError :=
